@@ -48,6 +48,11 @@ def shaped(g):
     # cyclic embedding: the generator comes back, and the back reference (always nil) is never dereferenced
     for side, v in (("src", "self"), ("dest", "self"), ("src", "mutual"), ("dest", "inner")):
         out.append(("cyclic-embed-%s-%s" % (side, v), g.pair(**dict(BASE, embeds=1.0, ptr_embed=0.8, selfembed=1.0, selfembed_side=side, selfembed_variant=v))))
+    # `map:"-"` on an EMBEDDED member (pointer and value) with a deeper namesake of one of its fields through another embed (seeded
+    # change C09-9): the tagged struct keeps hiding the deeper field, guards and allocations follow the path Go resolves
+    for side, ptr in (("src", 1.0), ("dest", 1.0), ("src", 0.5), ("dest", 0.5), ("src", 1.0), ("dest", 1.0)):
+        out.append(("embed-tagged-skip-" + side, g.pair(**dict(BASE, embeds=1.0, ptr_embed=ptr, depth2=0.7, deep=0.9, embed_tag=1.0, embed_tag_side=side,
+                                                               embed_tag_kind="-", embed_tag_namesake=1.0, diamond=0.0, selfembed=0.0))))
     # the same struct type embedded twice at different depths (seeded change C09-5): guards and allocations follow the SHALLOWER path
     for side in ("src", "dest", "src", "dest"):
         out.append(("embedded-twice-" + side, g.pair(**dict(BASE, embeds=1.0, ptr_embed=0.9, depth2=1.0, deep=0.95, diamond=1.0, diamond_side=side, selfembed=0.0))))
